@@ -11,7 +11,6 @@ Executes regex bytecode with:
 from typing import List, Tuple, Optional, Callable
 from .opcodes import RegexOpCode as Op
 
-
 # ECMAScript character classes. Python's str.isdigit/isalnum/isspace follow
 # Unicode (and isspace also accepts U+001C..U+001F), which is not what \d, \w,
 # \s and \b mean in a JavaScript regular expression.
